@@ -6,8 +6,9 @@
 //! or a stack overflow is a violation. A case that hits the CPU/time cap is neither a pass nor
 //! a violation; it is listed under `capped`.
 //!
-//! Every shard runs in a child process (this binary re-executed with `__child <spec file>`),
-//! on a thread with an 8 MiB stack (the size of jj's main thread under the default `ulimit
+//! Every shard runs in a child process (a pool of workers: this binary re-executed with
+//! `__child <output file>`, fed one job at a time; a worker that dies is replaced), each job
+//! on a fresh thread with an 8 MiB stack (the size of jj's main thread under the default `ulimit
 //! -s`), under RLIMIT_CPU / RLIMIT_AS / a wall-clock watchdog, so that a stack overflow
 //! (SIGABRT/SIGSEGV) or a hang is observed by the parent instead of killing the check.
 //!
@@ -64,6 +65,8 @@ use vcommon::Level;
 use vcommon::catch;
 
 const STACK_BYTES: usize = 8 << 20;
+/// The first TOKEN_CORE tokens of every token alphabet form its core (used for the longest strings).
+const TOKEN_CORE: usize = 14;
 const ADDRESS_SPACE_CAP: u64 = 6 << 30;
 
 // ------------------------------------------------------------------------------------------
@@ -252,16 +255,17 @@ fn run_entry(env: &Env, lang: Lang, entry: &str, text: &str, keep: bool) -> Outc
 fn token_alphabet(lang: Lang) -> &'static [&'static str] {
     match lang {
         Lang::Revset => &[
-            "a", "all", "x", "1", "\"s\\t\"", "\"", "\\", "'", "(", ")", ",", "@", ":", "::", "..", "-", "+", "^",
-            "~", "|", "&", " ", "=", "é", "😀", "\0", ".", "*",
+            // core (first 14), then the rest
+            "a", "\"s\\t\"", "(", ")", ",", "@", ":", "::", "-", "~", "|", "&", " ", "\"", //
+            "all", "1", "\\", "'", "..", "+", "^", "=", "é", "😀", "\0",
         ],
         Lang::Fileset => &[
-            "a", "all", "file", "root-glob", "\"s\\t\"", "\"", "\\", "'", "(", ")", ",", "~", "|", "&", " ", ":",
-            "*", "[", "]", "/", ".", "..", "-", "@", "é", "😀", "\0", "{",
+            "a", "\"s\\t\"", "(", ")", ",", "~", "|", "&", " ", ":", "\"", "*", "/", "..", //
+            "all", "file", "\\", "'", "[", "]", ".", "-", "é", "😀", "\0",
         ],
         Lang::Template => &[
-            "a", "true", "1", "0", "9999999999999999999", "\"s\\t\"", "\"", "\\", "'", "(", ")", ",", ".", "++",
-            "+", "-", "*", "/", "%", "!", "||", "&&", "==", ">=", "<", "|", ":", "=", " ", "é", "😀", "\0",
+            "a", "1", "\"s\\t\"", "(", ")", ",", ".", "++", "-", "!", "||", "|", ":", " ", //
+            "true", "9999999999999999999", "\"", "\\", "'", "+", "*", "==", ">=", "<", "=", "é", "😀", "\0",
         ],
     }
 }
@@ -334,9 +338,10 @@ fn alias_pool(lang: Lang) -> Vec<(&'static str, &'static str)> {
 
 fn alias_input_alphabet(lang: Lang) -> &'static [&'static str] {
     match lang {
-        Lang::Revset => &["a", "b", "x", "f(", "g(", "p:", ")", ",", "|", "~", "\"s\"", "all()", " "],
-        Lang::Fileset => &["a", "b", "x", "f(", "g(", "p:", ")", ",", "|", "~", "\"s\"", "all()", "file:"],
-        Lang::Template => &["a", "b", "x", "f(", "g(", "p:", ")", ",", "++", "-", "\"s\"", ".m(", "|x|"],
+        // the first 10 are the quick tier's input alphabet
+        Lang::Revset => &["a", "b", "x", "f(", "g(", "p:", ")", ",", "|", "all()", "~", "\"s\"", " "],
+        Lang::Fileset => &["a", "b", "x", "f(", "g(", "p:", ")", ",", "|", "all()", "~", "\"s\"", "file:"],
+        Lang::Template => &["a", "b", "x", "f(", "g(", "p:", ")", ",", "++", ".m(", "-", "\"s\"", "|x|"],
     }
 }
 
@@ -369,7 +374,7 @@ const REVSET_FUNCTIONS: &[&str] = &[
 const REVSET_ARGS: &[&str] = &[
     "a", "\"s\"", "1", "-1", "99999999999999999999", "x:y", "exact:\"a\"", "glob:\"[a\"", "regex:\"(\"", "a|b",
     "~a", "@", "remote=a", "\"\"", "after:\"yesterday\"", "after:\"x\"", "\"../x\"", "all()", "a@b", "''",
-    "depth=1",
+    "depth=1", "\"-1\"",
 ];
 
 const FILESET_KINDS: &[&str] = &[
@@ -378,7 +383,7 @@ const FILESET_KINDS: &[&str] = &[
     "root-prefix-glob-i", "nosuch",
 ];
 
-const FILESET_VALUE_CHARS: &[&str] = &["a", "/", ".", "*", "[", "]", "{", "}", "\\", "?", "é", ",", "!", "-"];
+const FILESET_VALUE_CHARS: &[&str] = &["*", "/", "..", "a", ".", "[", "{", "\\", "]", "}", "?", "é", ",", "!", "-"];
 
 const ESCAPE_ATOMS: &[&str] = &[
     "\\t", "\\r", "\\n", "\\0", "\\e", "\\x41", "\\xé", "\\\"", "\\\\", "\\x4", "\\", "\\q", "a", "é", "😀",
@@ -566,7 +571,14 @@ fn run_case(env: &Env, lang: Lang, text: &str, aliases: &Aliases, tally: &mut Ta
     out.trace(text);
     tally.cases += 1;
     let mut any_ok = false;
-    for entry in lang.entries() {
+    // With alias rules only the entry points that expand aliases are of interest.
+    let entries: &[&str] = match (lang, aliases.is_empty()) {
+        (_, true) => lang.entries(),
+        (Lang::Revset, false) => &["parse"],
+        (Lang::Fileset, false) => &["parse", "parse_maybe_bare"],
+        (Lang::Template, false) => &["parse"],
+    };
+    for entry in entries {
         tally.evals += 1;
         match run_entry(env, lang, entry, text, false) {
             Outcome::Ok => {
@@ -629,6 +641,9 @@ fn child_body(spec: &Value, out: &mut ChildOut) {
                 "decl" => DECL_ALPHABET,
                 other => vcommon::machinery_failure(&format!("unknown family {other}")),
             };
+            let limit = spec["limit"].as_u64().map(|l| l as usize).unwrap_or(alphabet.len()).min(alphabet.len());
+            let alphabet = &alphabet[..limit];
+            let min_len = spec["min_len"].as_u64().unwrap_or(0) as usize;
             let prefix: Vec<usize> = serde_json::from_value(spec["prefix"].clone()).unwrap_or_default();
             let extra = spec["extra"].as_u64().unwrap_or(0) as usize;
             let alias_sets: Vec<Aliases> = match spec["alias_sets"].as_array() {
@@ -637,7 +652,10 @@ fn child_body(spec: &Value, out: &mut ChildOut) {
             };
             if family == "decl" {
                 let mut env = Env::new(lang, &vec![]);
-                for_each_string(alphabet, &prefix, extra, |_idx, text| {
+                for_each_string(alphabet, &prefix, extra, |idx, text| {
+                    if idx.len() < min_len {
+                        return;
+                    }
                     out.trace(text);
                     tally.cases += 1;
                     tally.evals += 1;
@@ -673,6 +691,9 @@ fn child_body(spec: &Value, out: &mut ChildOut) {
                         .collect();
                     let mut set_samples = 0;
                     for_each_string(alphabet, &prefix, extra, |idx, text| {
+                        if idx.len() < min_len {
+                            return;
+                        }
                         let any_ok = run_case(&env, lang, text, aliases, &mut tally, out);
                         let canonical = family != "chars" && greedy_tokens(alphabet, text).as_deref() == Some(idx);
                         let nontrivial = match family {
@@ -724,7 +745,8 @@ fn child_body(spec: &Value, out: &mut ChildOut) {
                 }
                 (Lang::Fileset, "patterns") => {
                     let kind = FILESET_KINDS[index];
-                    for_each_string(FILESET_VALUE_CHARS, &[], 3, |_idx, value| {
+                    let limit = spec["limit"].as_u64().map(|l| l as usize).unwrap_or(FILESET_VALUE_CHARS.len());
+                    for_each_string(&FILESET_VALUE_CHARS[..limit.min(FILESET_VALUE_CHARS.len())], &[], 3, |_idx, value| {
                         let quoted = format!("{kind}:\"{}\"", value.replace('\\', "\\\\"));
                         let bare = format!("{kind}:{value}");
                         let a = run_case(&env, lang, &quoted, &none, &mut tally, out);
@@ -796,26 +818,44 @@ fn child_body(spec: &Value, out: &mut ChildOut) {
     out.line(&format!("R {}", tally.to_json()));
 }
 
-fn child_main(spec_path: &str) -> ! {
+/// Worker process: reads one job spec (a JSON line) at a time from stdin, runs it on a fresh
+/// thread with an 8 MiB stack and appends the job's output lines to `out_path`. A job that
+/// overflows the stack or exceeds its CPU cap kills the whole worker; the parent observes the
+/// signal, reads how far the job got, and starts a new worker for the next job.
+fn child_main(out_path: &str) -> ! {
     vcommon::silence_panics();
-    let bytes = std::fs::read(spec_path).unwrap_or_else(|e| vcommon::machinery_failure(&format!("spec: {e}")));
-    let spec: Value =
-        serde_json::from_slice(&bytes).unwrap_or_else(|e| vcommon::machinery_failure(&format!("spec: {e}")));
-    let out_path = spec["out"].as_str().unwrap_or_else(|| vcommon::machinery_failure("spec without out")).to_owned();
-    let trace = spec["trace"].as_bool().unwrap_or(false);
-    let handle = std::thread::Builder::new()
-        .name("c36-worker".into())
-        .stack_size(STACK_BYTES)
-        .spawn(move || {
-            let file = std::fs::File::create(&out_path)
-                .unwrap_or_else(|e| vcommon::machinery_failure(&format!("cannot create {out_path}: {e}")));
-            let mut out = ChildOut { file, trace };
-            child_body(&spec, &mut out);
-        })
-        .unwrap_or_else(|e| vcommon::machinery_failure(&format!("cannot spawn worker: {e}")));
-    match handle.join() {
-        Ok(()) => std::process::exit(0),
-        Err(_) => std::process::exit(3),
+    let stdin = std::io::stdin();
+    let mut line = String::new();
+    loop {
+        line.clear();
+        match stdin.read_line(&mut line) {
+            Ok(0) | Err(_) => std::process::exit(0),
+            Ok(_) => {}
+        }
+        if line.trim().is_empty() {
+            continue;
+        }
+        let spec: Value = serde_json::from_str(&line)
+            .unwrap_or_else(|e| vcommon::machinery_failure(&format!("worker: bad job spec: {e}")));
+        let trace = spec["trace"].as_bool().unwrap_or(false);
+        let out_path = out_path.to_owned();
+        arm_cpu_limit(spec["cpu_cap_s"].as_u64().unwrap_or(60));
+        let handle = std::thread::Builder::new()
+            .name("c36-worker".into())
+            .stack_size(STACK_BYTES)
+            .spawn(move || {
+                let file = std::fs::OpenOptions::new()
+                    .create(true)
+                    .append(true)
+                    .open(&out_path)
+                    .unwrap_or_else(|e| vcommon::machinery_failure(&format!("cannot open {out_path}: {e}")));
+                let mut out = ChildOut { file, trace };
+                child_body(&spec, &mut out);
+            })
+            .unwrap_or_else(|e| vcommon::machinery_failure(&format!("cannot spawn worker thread: {e}")));
+        if handle.join().is_err() {
+            std::process::exit(3);
+        }
     }
 }
 
@@ -839,87 +879,142 @@ struct ChildRun {
 
 static CHILD_SEQ: AtomicU64 = AtomicU64::new(0);
 static CHILDREN: AtomicU64 = AtomicU64::new(0);
+static JOBS: AtomicU64 = AtomicU64::new(0);
 
-/// `cases`: number of separately capped cases the child runs (1 for an enumeration shard, whose
-/// cap covers the whole shard; n for a ladder child, which re-arms its own soft CPU limit before
-/// every case and is watched for *progress* instead of total wall time).
-fn run_child(scratch: &Path, mut spec: Value, cpu_cap_s: u64, cases: u64) -> ChildRun {
-    let per_case = cases > 1 || spec["mode"] == "single";
-    let hard_cpu_s = if per_case { cpu_cap_s * cases + 60 } else { cpu_cap_s + 2 };
-    let soft_cpu_s = if per_case { hard_cpu_s } else { cpu_cap_s };
-    let seq = CHILD_SEQ.fetch_add(1, Ordering::Relaxed);
-    CHILDREN.fetch_add(1, Ordering::Relaxed);
-    let spec_path = scratch.join(format!("{seq}.spec.json"));
-    let out_path = scratch.join(format!("{seq}.out"));
-    let err_path = scratch.join(format!("{seq}.err"));
-    spec["out"] = json!(out_path.to_str().unwrap());
-    std::fs::write(&spec_path, serde_json::to_vec(&spec).unwrap())
-        .unwrap_or_else(|e| vcommon::machinery_failure(&format!("cannot write spec: {e}")));
-    let err_file = std::fs::File::create(&err_path)
-        .unwrap_or_else(|e| vcommon::machinery_failure(&format!("cannot create stderr file: {e}")));
-    let exe = std::env::current_exe().unwrap_or_else(|e| vcommon::machinery_failure(&format!("current_exe: {e}")));
-    let mut cmd = Command::new(exe);
-    cmd.arg("__child").arg(&spec_path).stdin(Stdio::null()).stdout(Stdio::null()).stderr(Stdio::from(err_file));
-    // SAFETY: only async-signal-safe calls (setrlimit) between fork and exec.
-    unsafe {
-        cmd.pre_exec(move || {
-            let cpu = libc::rlimit { rlim_cur: soft_cpu_s, rlim_max: hard_cpu_s };
-            libc::setrlimit(libc::RLIMIT_CPU, &cpu);
-            let mem = libc::rlimit { rlim_cur: ADDRESS_SPACE_CAP, rlim_max: ADDRESS_SPACE_CAP };
-            libc::setrlimit(libc::RLIMIT_AS, &mem);
-            let core = libc::rlimit { rlim_cur: 0, rlim_max: 0 };
-            libc::setrlimit(libc::RLIMIT_CORE, &core);
-            Ok(())
-        });
+struct Worker {
+    child: std::process::Child,
+    stdin: std::process::ChildStdin,
+    out_path: PathBuf,
+    err_path: PathBuf,
+    offset: u64,
+}
+
+static IDLE_WORKERS: Mutex<Vec<Worker>> = Mutex::new(Vec::new());
+
+impl Worker {
+    fn spawn(scratch: &Path) -> Worker {
+        let seq = CHILD_SEQ.fetch_add(1, Ordering::Relaxed);
+        CHILDREN.fetch_add(1, Ordering::Relaxed);
+        let out_path = scratch.join(format!("{seq}.out"));
+        let err_path = scratch.join(format!("{seq}.err"));
+        let _ = std::fs::remove_file(&out_path);
+        let err_file = std::fs::File::create(&err_path)
+            .unwrap_or_else(|e| vcommon::machinery_failure(&format!("cannot create stderr file: {e}")));
+        let exe =
+            std::env::current_exe().unwrap_or_else(|e| vcommon::machinery_failure(&format!("current_exe: {e}")));
+        let mut cmd = Command::new(exe);
+        cmd.arg("__child").arg(&out_path).stdin(Stdio::piped()).stdout(Stdio::null()).stderr(Stdio::from(err_file));
+        // SAFETY: only async-signal-safe calls (setrlimit, prctl) between fork and exec.
+        unsafe {
+            cmd.pre_exec(move || {
+                // the worker lowers its own soft CPU limit per job / per case
+                let cpu = libc::rlimit { rlim_cur: 6 * 3600, rlim_max: 6 * 3600 };
+                libc::setrlimit(libc::RLIMIT_CPU, &cpu);
+                let mem = libc::rlimit { rlim_cur: ADDRESS_SPACE_CAP, rlim_max: ADDRESS_SPACE_CAP };
+                libc::setrlimit(libc::RLIMIT_AS, &mem);
+                let core = libc::rlimit { rlim_cur: 0, rlim_max: 0 };
+                libc::setrlimit(libc::RLIMIT_CORE, &core);
+                // never outlive the check
+                libc::prctl(libc::PR_SET_PDEATHSIG, libc::SIGKILL);
+                Ok(())
+            });
+        }
+        let mut child =
+            cmd.spawn().unwrap_or_else(|e| vcommon::machinery_failure(&format!("cannot spawn worker: {e}")));
+        let stdin = child.stdin.take().unwrap();
+        Worker { child, stdin, out_path, err_path, offset: 0 }
     }
+
+    fn discard(mut self) {
+        let _ = self.child.kill();
+        let _ = self.child.wait();
+        let _ = std::fs::remove_file(&self.out_path);
+        let _ = std::fs::remove_file(&self.err_path);
+    }
+}
+
+fn shutdown_workers() {
+    let workers: Vec<Worker> = std::mem::take(&mut *IDLE_WORKERS.lock().unwrap());
+    for w in workers {
+        w.discard();
+    }
+}
+
+/// Runs one job in a worker process. `cases`: number of separately capped cases of the job (1
+/// for an enumeration shard, whose cap covers the whole shard; n for a ladder job, which
+/// re-arms its soft CPU limit before every case and is watched for *progress* instead of total
+/// wall time).
+fn run_child(scratch: &Path, mut spec: Value, cpu_cap_s: u64, cases: u64) -> ChildRun {
+    JOBS.fetch_add(1, Ordering::Relaxed);
+    let per_case = cases > 1 || spec["mode"] == "single";
+    spec["cpu_cap_s"] = json!(cpu_cap_s);
+    let mut worker = IDLE_WORKERS.lock().unwrap().pop().unwrap_or_else(|| Worker::spawn(scratch));
     let t0 = Instant::now();
-    let mut child = cmd.spawn().unwrap_or_else(|e| vcommon::machinery_failure(&format!("cannot spawn child: {e}")));
+    let mut line = serde_json::to_string(&spec).unwrap();
+    line.push('\n');
+    if worker.stdin.write_all(line.as_bytes()).and_then(|_| worker.stdin.flush()).is_err() {
+        vcommon::machinery_failure("cannot send a job to a worker process");
+    }
     let wall_cap = Duration::from_secs(cpu_cap_s * 3 + 20);
     let mut killed_by_watchdog = false;
     let mut last_progress = Instant::now();
-    let mut last_len = 0u64;
-    let status = loop {
-        match child.try_wait() {
-            Ok(Some(st)) => break st,
-            Ok(None) => {
-                if per_case {
-                    let len = std::fs::metadata(&out_path).map(|m| m.len()).unwrap_or(0);
-                    if len != last_len {
-                        last_len = len;
-                        last_progress = Instant::now();
-                    }
-                }
-                let waited = if per_case { last_progress.elapsed() } else { t0.elapsed() };
-                if waited > wall_cap {
-                    let _ = child.kill();
-                    killed_by_watchdog = true;
-                    break child.wait().unwrap_or_else(|e| vcommon::machinery_failure(&format!("wait: {e}")));
-                }
-                let el = t0.elapsed().as_millis();
-                std::thread::sleep(Duration::from_millis(if el < 50 { 1 } else if el < 1000 { 5 } else { 50 }));
+    let mut last_len = worker.offset;
+    let read_new = |w: &Worker| -> String {
+        use std::io::Read as _;
+        use std::io::Seek as _;
+        let mut buf = Vec::new();
+        if let Ok(mut f) = std::fs::File::open(&w.out_path) {
+            if f.seek(std::io::SeekFrom::Start(w.offset)).is_ok() {
+                let _ = f.read_to_end(&mut buf);
             }
+        }
+        String::from_utf8_lossy(&buf).into_owned()
+    };
+    // `Some(status)` if the worker died, `None` if the job finished and the worker lives on
+    let status = loop {
+        match worker.child.try_wait() {
+            Ok(Some(st)) => break Some(st),
+            Ok(None) => {}
             Err(e) => vcommon::machinery_failure(&format!("try_wait: {e}")),
         }
+        let len = std::fs::metadata(&worker.out_path).map(|m| m.len()).unwrap_or(0);
+        if len != last_len {
+            last_len = len;
+            last_progress = Instant::now();
+            let new = read_new(&worker);
+            if new.ends_with('\n') && new.lines().last().is_some_and(|l| l.starts_with("R ")) {
+                break None;
+            }
+        }
+        let waited = if per_case { last_progress.elapsed() } else { t0.elapsed() };
+        if waited > wall_cap {
+            let _ = worker.child.kill();
+            killed_by_watchdog = true;
+            break Some(
+                worker.child.wait().unwrap_or_else(|e| vcommon::machinery_failure(&format!("wait: {e}"))),
+            );
+        }
+        let el = t0.elapsed().as_millis();
+        std::thread::sleep(Duration::from_millis(if el < 20 { 1 } else if el < 1000 { 4 } else { 25 }));
     };
     let wall_ms = t0.elapsed().as_millis();
-    let stdout = String::from_utf8_lossy(&std::fs::read(&out_path).unwrap_or_default()).into_owned();
-    let stderr = String::from_utf8_lossy(&std::fs::read(&err_path).unwrap_or_default()).into_owned();
-    let _ = std::fs::remove_file(&spec_path);
-    let _ = std::fs::remove_file(&out_path);
-    let _ = std::fs::remove_file(&err_path);
+    let stdout = read_new(&worker);
     let lines: Vec<String> = stdout.lines().map(str::to_owned).collect();
-    let has_result = lines.last().is_some_and(|l| l.starts_with("R "));
+    let has_result = stdout.ends_with('\n') && lines.last().is_some_and(|l| l.starts_with("R "));
+    let Some(status) = status else {
+        worker.offset = std::fs::metadata(&worker.out_path).map(|m| m.len()).unwrap_or(0);
+        IDLE_WORKERS.lock().unwrap().push(worker);
+        return ChildRun { exit: Exit::Clean, lines, wall_ms };
+    };
+    let stderr = String::from_utf8_lossy(&std::fs::read(&worker.err_path).unwrap_or_default()).into_owned();
+    worker.discard();
     let exit = if killed_by_watchdog {
-        Exit::Capped(format!("wall clock > {} s", wall_cap.as_secs()))
+        Exit::Capped(format!("no progress for {} s (wall clock)", wall_cap.as_secs()))
     } else if let Some(code) = status.code() {
-        if code == 0 && has_result {
-            Exit::Clean
-        } else {
-            vcommon::machinery_failure(&format!(
-                "child exited with code {code} (result line: {has_result}); stderr: {}",
-                stderr.chars().take(600).collect::<String>()
-            ));
-        }
+        vcommon::machinery_failure(&format!(
+            "worker exited with code {code} in the middle of a job (result line: {has_result}); stderr: {}",
+            stderr.chars().take(600).collect::<String>()
+        ));
     } else {
         let sig = status.signal().unwrap_or(0);
         if stderr.contains("has overflowed its stack") {
@@ -1133,7 +1228,14 @@ struct LadderReport {
     not_run: Vec<usize>,
 }
 
-fn run_ladder(sh: &Shared, lang: Lang, production: &str, rungs: &[usize], cpu_cap_s: u64) -> LadderReport {
+fn run_ladder(
+    sh: &Shared,
+    lang: Lang,
+    production: &str,
+    rungs: &[usize],
+    cpu_cap_s: u64,
+    bisect: bool,
+) -> LadderReport {
     let scratch = sh.ctx.scratch();
     let spec_for = |depths: &[usize]| {
         json!({"mode": "single", "lang": lang.name(), "production": production, "depths": depths, "case_cap_s": cpu_cap_s})
@@ -1207,8 +1309,8 @@ fn run_ladder(sh: &Shared, lang: Lang, production: &str, rungs: &[usize], cpu_ca
             // smallest failing depth by bisection between the last completed rung and this one
             let mut lo = rep.largest_completed;
             let mut hi = depth;
-            let mut exact = true;
-            while hi - lo > 1 {
+            let mut exact = bisect;
+            while bisect && hi - lo > 1 {
                 let mid = lo + (hi - lo) / 2;
                 let m = run_single(scratch, spec_for(&[mid]), cpu_cap_s);
                 *sh.child_ms.lock().unwrap().entry(key.clone()).or_default() += m.wall_ms as u64;
@@ -1221,12 +1323,12 @@ fn run_ladder(sh: &Shared, lang: Lang, production: &str, rungs: &[usize], cpu_ca
                     }
                 }
             }
-            rep.smallest_failing_depth = Some(hi);
+            rep.smallest_failing_depth = bisect.then_some(hi);
             let (text, aliases) = ladder_case(lang, production, depth);
             let mut case = json!({
                 "lang": lang.name(), "production": production, "depth": depth,
-                "smallest_failing_depth": hi, "bisection_exact": exact,
-                "largest_passing_depth": lo, "stack_bytes": STACK_BYTES,
+                "smallest_failing_depth_at_most": hi, "bisection_exact": exact,
+                "largest_passing_depth_at_least": lo, "stack_bytes": STACK_BYTES,
             });
             if text.len() <= 20000 && aliases.len() <= 300 {
                 case["text"] = json!(text);
@@ -1236,7 +1338,7 @@ fn run_ladder(sh: &Shared, lang: Lang, production: &str, rungs: &[usize], cpu_ca
                 &format!("C36/{}/{production}/{kind}", lang.name()),
                 format!(
                     "{} {}: nesting depth {depth} of production {production} kills the process ({:?}) on a \
-                     {} MiB stack; smallest failing depth {hi} (largest passing {lo}); input {:?}…",
+                     {} MiB stack; smallest failing depth in ({lo}, {hi}]; input {:?}…",
                     lang.name(),
                     r.in_progress_entry.as_deref().unwrap_or("?"),
                     r.exit,
@@ -1303,15 +1405,20 @@ fn main() {
     }
     let ctx = Ctx::from_args("C36", Level::Exploration);
     vcommon::silence_panics();
-    let ladder_cap_s: u64 = ctx.pick(8, 30);
+    let ladder_cap_s: u64 = ctx.pick(3, 30);
+    let bisect = ctx.thorough();
     let shard_cap_s: u64 = ctx.pick(120, 1500);
     if let Some((_sig, case)) = ctx.replay_case() {
         replay(&ctx, &case, ladder_cap_s.max(30));
+        shutdown_workers();
         ctx.finish(Coverage { evaluations: 1, ..Default::default() });
     }
-    let token_len: usize = ctx.pick(4, 5);
-    let char_len: usize = ctx.pick(4, 6);
-    let decl_len: usize = ctx.pick(4, 6);
+    let token_len: usize = ctx.pick(3, 5);
+    let token_core_len: usize = ctx.pick(4, 6);
+    let alias_input_limit: usize = ctx.pick(10, 13);
+    let pattern_value_limit: usize = ctx.pick(8, FILESET_VALUE_CHARS.len());
+    let char_len: usize = ctx.pick(4, 5);
+    let decl_len: usize = ctx.pick(4, 5);
     let alias_input_len: usize = ctx.pick(3, 4);
     let alias_sets_per_child: usize = ctx.pick(8, 2);
     let max_rung: usize = ctx.pick(4096, 65536);
@@ -1350,14 +1457,18 @@ fn main() {
         }
         p
     };
-    let push_enum = |jobs: &mut Vec<Job>, lang: Lang, family: &str, a: usize, max_len: usize, aliases: &Aliases, key: String| {
+    // All strings with min_len <= length <= max_len over the first `limit` tokens of the family's alphabet.
+    let push_enum = |jobs: &mut Vec<Job>, lang: Lang, family: &str, limit: usize, min_len: usize, max_len: usize, key: String| {
+        let a = limit;
         let p = prefix_len(max_len, a).min(max_len);
-        // all strings shorter than p: one shard per exact string is wasteful; one shard with
-        // extra = p - 1 from the empty prefix covers lengths 0..p-1
-        jobs.push(Job::Shard {
-            key: key.clone(),
-            spec: json!({"mode": "enum", "lang": lang.name(), "family": family, "prefix": [], "extra": p - 1, "aliases": aliases}),
-        });
+        let base = json!({"mode": "enum", "lang": lang.name(), "family": family, "limit": limit, "min_len": min_len});
+        if min_len < p {
+            // lengths 0..p-1 from the empty prefix
+            let mut spec = base.clone();
+            spec["prefix"] = json!([]);
+            spec["extra"] = json!(p - 1);
+            jobs.push(Job::Shard { key: key.clone(), spec });
+        }
         let mut prefixes: Vec<Vec<usize>> = vec![vec![]];
         for _ in 0..p {
             prefixes = prefixes
@@ -1372,17 +1483,21 @@ fn main() {
                 .collect();
         }
         for pre in prefixes {
-            jobs.push(Job::Shard {
-                key: key.clone(),
-                spec: json!({"mode": "enum", "lang": lang.name(), "family": family, "prefix": pre, "extra": max_len - p, "aliases": aliases}),
-            });
+            let mut spec = base.clone();
+            spec["prefix"] = json!(pre);
+            spec["extra"] = json!(max_len - p);
+            jobs.push(Job::Shard { key: key.clone(), spec });
         }
     };
     for lang in LANGS {
-        let none: Aliases = vec![];
-        push_enum(&mut jobs, lang, "tokens", token_alphabet(lang).len(), token_len, &none, format!("{}/tokens", lang.name()));
-        push_enum(&mut jobs, lang, "chars", CHAR_ALPHABET.len(), char_len, &none, format!("{}/chars", lang.name()));
-        push_enum(&mut jobs, lang, "decl", DECL_ALPHABET.len(), decl_len, &none, format!("{}/decl", lang.name()));
+        let full = token_alphabet(lang).len();
+        push_enum(&mut jobs, lang, "tokens", full, 0, token_len, format!("{}/tokens", lang.name()));
+        if token_core_len > token_len {
+            // longer strings over the core part of the alphabet only
+            push_enum(&mut jobs, lang, "tokens", TOKEN_CORE, token_len + 1, token_core_len, format!("{}/tokens", lang.name()));
+        }
+        push_enum(&mut jobs, lang, "chars", CHAR_ALPHABET.len(), 0, char_len, format!("{}/chars", lang.name()));
+        push_enum(&mut jobs, lang, "decl", DECL_ALPHABET.len(), 0, decl_len, format!("{}/decl", lang.name()));
         let pool = alias_pool(lang);
         let sets: Vec<Aliases> = alias_sets(lang)
             .iter()
@@ -1391,7 +1506,7 @@ fn main() {
         for chunk in sets.chunks(alias_sets_per_child) {
             jobs.push(Job::Shard {
                 key: format!("{}/alias", lang.name()),
-                spec: json!({"mode": "enum", "lang": lang.name(), "family": "alias", "prefix": [], "extra": alias_input_len, "alias_sets": chunk}),
+                spec: json!({"mode": "enum", "lang": lang.name(), "family": "alias", "prefix": [], "extra": alias_input_len, "alias_sets": chunk, "limit": alias_input_limit}),
             });
         }
         jobs.push(Job::Shard {
@@ -1408,7 +1523,7 @@ fn main() {
     for i in 0..FILESET_KINDS.len() {
         jobs.push(Job::Shard {
             key: "fileset/patterns".into(),
-            spec: json!({"mode": "guided", "lang": "fileset", "group": "patterns", "index": i}),
+            spec: json!({"mode": "guided", "lang": "fileset", "group": "patterns", "index": i, "limit": pattern_value_limit}),
         });
     }
     let shard_count = jobs.iter().filter(|j| matches!(j, Job::Shard { .. })).count();
@@ -1418,10 +1533,12 @@ fn main() {
     jobs.par_iter().with_max_len(1).for_each(|job| match job {
         Job::Shard { key, spec } => run_shard(&sh, key, spec.clone(), shard_cap_s),
         Job::Ladder { lang, production } => {
-            let rep = run_ladder(&sh, *lang, production, &rungs, ladder_cap_s);
+            let rep = run_ladder(&sh, *lang, production, &rungs, ladder_cap_s, bisect);
             ladder_reports.lock().unwrap().push(rep);
         }
     });
+
+    shutdown_workers();
 
     // ---- evidence ---------------------------------------------------------------------------
     let mut reports = ladder_reports.into_inner().unwrap();
@@ -1473,14 +1590,15 @@ fn main() {
         distinct_nontrivial: sh.nontrivial.load(Ordering::Relaxed),
         rule: format!(
             "per language (revset, fileset, template): every string of <= {token_len} tokens over the language's token \
-             alphabet (sizes {:?}); every string of <= {char_len} characters over {CHAR_ALPHABET:?}; every alias \
+             alphabet (sizes {:?}) and every string of <= {token_core_len} tokens over its first {TOKEN_CORE} tokens; every string of <= {char_len} characters over {CHAR_ALPHABET:?}; every alias \
              declaration of <= {decl_len} tokens over {DECL_ALPHABET:?}; every set of <= 2 alias rules from a pool of 17 x \
-             every input of <= {alias_input_len} tokens; every string literal of <= 3 escape atoms; every builtin revset \
+             every input of <= {alias_input_len} tokens over the first {alias_input_limit} input tokens; every string literal of <= 3 escape atoms; every builtin revset \
              function x <= 2 arguments from {} argument forms; every fileset pattern kind x every value of <= 3 \
-             characters over {FILESET_VALUE_CHARS:?} (quoted and bare); nesting ladders {rungs:?} for every recursive \
+             tokens over the first {pattern_value_limit} of {FILESET_VALUE_CHARS:?} (quoted and bare); nesting ladders {rungs:?} for every recursive \
              production. Each case is run through every public parse entry point of its language \
              (revset: parse_program, parse, parse_string_expression; fileset: parse, parse_maybe_bare; template: \
-             parse_template, parse); evaluations counts entry-point executions. Non-trivial (counted conservatively, \
+             parse_template, parse; cases with alias rules only through the entry points that expand aliases); evaluations \
+             counts entry-point executions. Non-trivial (counted conservatively, \
              distinct by construction): token strings that are the greedy tokenisation of their text and parse Ok in \
              at least one entry point; (alias set, input) pairs with a non-empty alias set whose input mentions a \
              declared alias; guided cases that parse Ok (functions not in the token alphabet; escape literals in \
@@ -1493,6 +1611,7 @@ fn main() {
         exhaustive,
         extra: [
             ("child_processes".to_string(), json!(CHILDREN.load(Ordering::Relaxed))),
+            ("jobs_run_in_child_processes".to_string(), json!(JOBS.load(Ordering::Relaxed))),
             ("shards".to_string(), json!(shard_count)),
             ("cases".to_string(), json!(sh.cases.load(Ordering::Relaxed))),
             ("outcomes_per_family".to_string(), json!(totals)),
